@@ -15,6 +15,8 @@ CACHE = os.path.join(VERIF, '.cache', 'wx-target')
 # unit -> (crate, repo-relative file the witness module is a child of, witness source, test name)
 WITNESS = {
   'heap': ('samlang-heap', 'crates/samlang-heap/src/lib.rs', 'wx/witness/samlang_heap.rs', 'verif_witness_search'),
+  'litgate': ('samlang-parser', 'crates/samlang-parser/src/lexer.rs', 'wx/witness/samlang_parser_lexer.rs', 'verif_witness_search_literals'),
+  'lexer': ('samlang-parser', 'crates/samlang-parser/src/lexer.rs', 'wx/witness/samlang_parser_lexer.rs', 'verif_witness_search_positions'),
   'depgraph': ('samlang-services', 'crates/samlang-services/src/dep_graph.rs', 'wx/witness/samlang_services_dep_graph.rs', 'verif_witness_search'),
 }
 
